@@ -220,7 +220,8 @@ class Report:
             path = os.path.join(REPLAYS, self.pid, safe + ".json")
             with open(path, "w") as fh:
                 json.dump({"property": self.pid, "obligation": ob["name"], "key": wkey, "kind": ob.get("kind"),
-                           "expected": ob.get("expected"), "observed": ob.get("got"), "solver_model": ob.get("model"),
+                           "expected": ob.get("expected"), "observed": ob.get("got") or ob.get("mismatch"),
+                           "solver_model": ob.get("model"),
                            "replay": rp, "unit": u["unit"] if u else None,
                            "functions": (u or {}).get("functions")}, fh, indent=1, default=str)
             tail = "" if rp.get("confirmed") else " no-failing-input-found"
